@@ -3,7 +3,8 @@ import PewProofs.ExportVtk
 import PewProofs.ExportForeign
 
 /-! # C16 — property theorems (statements only depend on `PewModel.Export` and the hypothesis
-bundle `Clean` on the opaque number printer/parser) -/
+bundles on the opaque tokens: `Clean` for the number printer/converter (`PewProofs.Export`),
+`HeadOk` for the byte-order and spacing tokens of the VTK header (`PewProofs.ExportVtk`)) -/
 namespace Pew.Export
 
 section text
@@ -349,6 +350,26 @@ example : ∃ file, vtkRender "LittleEndian".toList ("1".toList, "2.5".toList, "
   cases hf : vtkRender "LittleEndian".toList ("1".toList, "2.5".toList, "1e-05".toList) imgB with
   | none => simp [vtkRender, imgB] at hf
   | some file => exact ⟨file, rfl, vtk_header_reads_back _ _ _ headOk_imgB file hf⟩
+
+example : ∃ file m a, vtkRender "LittleEndian".toList ("1".toList, "2.5".toList, "1e-05".toList) imgB = some file ∧
+    vtkParse file.head = some m ∧ m.arrays[1]? = some a ∧ a.offset = 56 ∧
+    file.body[a.offset / 8]? = some (Word.len 48) ∧ file.body[a.offset / 8 + 1 + (2 + 3 * (0 + 2 * 0))]? = some (Word.val 112) := by
+  cases hf : vtkRender "LittleEndian".toList ("1".toList, "2.5".toList, "1e-05".toList) imgB with
+  | none => simp [vtkRender, imgB] at hf
+  | some file =>
+    obtain ⟨m, hm, _, _, _, hk⟩ := vtk_file_decodes _ _ _ headOk_imgB file hf
+    obtain ⟨a, ha, _, hlen, hval⟩ := hk 1 (by decide)
+    have hoff : a.offset = 56 := by
+      rw [vtk_header_reads_back _ _ _ headOk_imgB file hf] at hm
+      injection hm with hm
+      subst hm
+      have : (vtkMetaSpec "LittleEndian".toList ("1".toList, "2.5".toList, "1e-05".toList) imgB).arrays[1]?
+          = some { name := "c".toList, type := "Float64".toList, format := "appended".toList, offset := 56 } := by
+        unfold vtkMetaSpec; rfl
+      rw [this] at ha
+      injection ha with ha
+      rw [← ha]
+    exact ⟨file, m, a, rfl, hm, ha, hoff, hlen, hval 2 0 0 (by decide) (by decide) (by decide)⟩
 
 example : natStr 1207 = "1207".toList := by
   rw [natStr, natStr, natStr, natStr]; decide
